@@ -1161,6 +1161,23 @@ fn admin_driver(out: &str, seed: u64, n: u64) {
                         _ => {}
                     }
                     r.act(json!({"op":"tx","ixs":ixs}));
+                    // two accounts in one bracket: a second start (as it is, and with a byte trailing its empty argument
+                    // list) whose own end closes the transaction, the first account never being closed (recorded side branches)
+                    let other = if acct == "A2" { "A3" } else { "A2" };
+                    for pad in [0u64, 1] {
+                        r.fork(&mut |r: &mut Recorder| {
+                            let mut s2 = json!({"op":"start_delev","acct":other,"signer":ra});
+                            if pad > 0 {
+                                s2["pad"] = json!(pad);
+                            }
+                            r.act(json!({"op":"tx","ixs":[
+                                {"op":"start_delev","acct":acct,"signer":ra}, s2,
+                                {"op":"withdraw","acct":other,"bank":"B2","amount":wamt,"signer":ra},
+                                {"op":"repay","acct":other,"bank":"B1","amount":ramt,"signer":ra},
+                                {"op":"end_delev","acct":other,"signer":ra}]}));
+                            r.act(json!({"op":"withdraw","acct":acct,"bank":"B2","amount":1,"signer":ra}));
+                        });
+                    }
                     if rng.gen_bool(0.3) {
                         r.act(json!({"op":"tick","dt": *pick(&mut rng, &[3600i64, 86399, 86400, 90000])}));
                     }
